@@ -106,8 +106,8 @@ def run(chk):
                 gen_parsed2 = 'Grid' not in chk.unparsed
                 if gen_parsed2:
                     chk.violation('impl-vs-model', 'grid coordinate %d of axis %d differs from the exact value %d by more than rounding (kind %s)' % (ii[a], a, exact_i[a], r.family), rp, key='value')
-            if not (Fraction(17, 16) <= exact_r[a] <= Fraction(31, 16)) and 'Grid' not in chk.unparsed:
-                chk.violation('gen-vs-ref', 'exact rescaled coordinate %s leaves [17/16, 31/16] (kind %s)' % (float(exact_r[a]), r.family), rp if False else None, key='margin')
+            if not (Fraction(1) < exact_r[a] <= Fraction(31, 16)) and 'Grid' not in chk.unparsed:
+                chk.violation('gen-vs-ref', 'exact rescaled coordinate %s leaves (1, 31/16] (kind %s)' % (float(exact_r[a]), r.family), rp if False else None, key='margin')
         chk.traces += 1
         chk.nontriv(('iloc', tuple(r.inp)))
         groups.setdefault(tuple(r.inp[:8]), []).append((r, ii))
